@@ -160,7 +160,8 @@ PROPS["C12"] = {
                   "api/compress.rs, compress_cmd.rs. Assumed: futures `buffered` ordering, tokio blocking-pool file semantics.",
 }
 PROPS["C14"] = {
-    "theorems": ["C14_refusal_leaves_output_clone", "C14_refusal_leaves_output_compress", "C14_pin_mismatch_refused", "C14_pin_checked_before_output"],
+    "theorems": ["C14_refusal_leaves_output_clone", "C14_refusal_leaves_output_compress", "C14_pin_mismatch_refused", "C14_pin_checked_before_output",
+                 "C14_clone_refusal_exact", "C14_compress_refusal_exact"],
     "suites": ["clirefuse", "tryinit"], "needs_cli": True,
     "rule": "which archives are refused at open is the reader model's decision (tryinit suite: hostile-but-checksummed, flipped, truncated headers, model vs Archive::try_init); the full matrix {clone, compress} x output {absent, regular file, block device too small / large enough (hook)} x "
             "{--force-create, --seed-output, neither} x archive {valid, invalid, pinned checksum mismatch, prefix pin, empty pin, "
